@@ -65,8 +65,8 @@ def parse_output(out, names):
         if short is None:
             short = full
         checks = []
-        for m in re.finditer(r"Check (\d+): (\S+)\n\s+- Status: (\w+)\n\s+- Description: \"(.*)\"(?:\n\s+- Location: (.*))?", body):
-            checks.append(dict(n=int(m.group(1)), name=m.group(2), status=m.group(3), desc=m.group(4),
+        for m in re.finditer(r"Check (\d+): (\S+)\n\s+- Status: (\w+)\n\s+- Description: \"((?:[^\"\\]|\\.)*)\"(?:\n\s+- Location: (.*))?", body):
+            checks.append(dict(n=int(m.group(1)), name=m.group(2), status=m.group(3), desc=" ".join(m.group(4).split()),
                                loc=(m.group(5) or "").strip()))
         verdict = "UNKNOWN"
         m = re.search(r"VERIFICATION:- (\w+)", body)
